@@ -14,7 +14,7 @@ func init() {
 	Registry["C19"] = c19
 	Metas["C19"] = Meta{Level: "other", NeedCG: true,
 		Technique: "static analysis: guarded-by (lockset) check of the pool's shared fields over the call graph, lock-order graph, edge-dominance of the capacity and duplicate tests before every insertion, per-iteration recomputation of the promotion allowance",
-		Explain:   "The behavioural clauses of this property (nonce order offered, no loss, no re-offer) quantify over histories of submissions and commits and are NOT decided. Decided are structural necessary conditions: (R1) every access to the EVM pool's shared maps and lists (pending, waiting, waitingBeats, all, extTxs, broadcastQueue) happens with tp.mtx held, here or by every caller; the generic mempool's dedup cache is accessed under its own mutex; (R2) lock order: tp.mtx before app.stateMtx, never the reverse; the lock-order graph is acyclic; (R3) bound before insert: the waiting queue insertion is edge-dominated by waitingTxCount < waitingLimit, pending insertion by pendingTxCount < pendingLimit with the allowance recomputed for every account inside the promotion loop, the admin and broadcast lists evict their oldest entry when at their limit, and the generic mempool tests its limit before PushBack; (R4) duplicate before insert: CheckAndAdd looks the hash up in tp.all before addWaiting and records it afterwards, txSortedMap.Add refuses an existing nonce, the admin list is scanned before PushBack, and the generic mempool appends only when txCache.Push reported the transaction as new; (R5) stale nonces are rejected before insertion and promotion starts at the account's state nonce.",
+		Explain:   "The behavioural clauses of this property (nonce order offered, no loss, no re-offer) quantify over histories of submissions and commits and are (R6) the state nonce is read inside the admission critical section and list walks survive removals. NOT decided. Decided are structural necessary conditions: (R1) every access to the EVM pool's shared maps and lists (pending, waiting, waitingBeats, all, extTxs, broadcastQueue) happens with tp.mtx held, here or by every caller; the generic mempool's dedup cache is accessed under its own mutex; (R2) lock order: tp.mtx before app.stateMtx, never the reverse; the lock-order graph is acyclic; (R3) bound before insert: the waiting queue insertion is edge-dominated by waitingTxCount < waitingLimit, pending insertion by pendingTxCount < pendingLimit with the allowance recomputed for every account inside the promotion loop, the admin and broadcast lists evict their oldest entry when at their limit, and the generic mempool tests its limit before PushBack; (R4) duplicate before insert: CheckAndAdd looks the hash up in tp.all before addWaiting and records it afterwards, txSortedMap.Add refuses an existing nonce, the admin list is scanned before PushBack, and the generic mempool appends only when txCache.Push reported the transaction as new; (R5) stale nonces are rejected before insertion and promotion starts at the account's state nonce.",
 		Assume:    []string{"go-clist is internally synchronised", "the state nonce read under stateMtx is the committed one"},
 	}
 }
